@@ -26,6 +26,8 @@ FILES = [
     "crates/aranya-policy-vm/src/data.rs",
     "crates/aranya-policy-vm/src/context.rs",
     "crates/aranya-policy-vm/src/error.rs",
+    # module-crate code the VM calls on its error path (MachineError::with_position, source_location)
+    "crates/aranya-policy-module/src/codemap.rs",
 ]
 
 # functions the model depends on by name: their disappearance is a hard failure of the translator
@@ -40,6 +42,7 @@ MUST_EXIST = {
         "enter_function", "exit_function", "enter_block", "exit_block", "get", "set", "clear",
     ],
     "crates/aranya-policy-vm/src/stack.rs": ["push", "pop", "peek"],
+    "crates/aranya-policy-module/src/codemap.rs": ["span_from_instruction", "linecol", "start_linecol", "as_str"],
 }
 
 TOKENS = [
